@@ -212,6 +212,16 @@ func (b *builder) validatorsStat() *state.ValidatorsStat {
 	return m
 }
 
+// setLen: the size of a set record; now and then hundreds of members.
+func (b *builder) setLen() int {
+	n := b.sliceLen()
+	if b.t.n(24) == 0 {
+		n = 100 + b.t.n(1200)
+		b.label("long-list")
+	}
+	return n
+}
+
 // members are inserted in another order by the independently rebuilt copy
 func (b *builder) order(n int) []int {
 	idx := make([]int, n)
@@ -225,7 +235,7 @@ func (b *builder) order(n int) []int {
 }
 
 func (b *builder) validatorIndex() *state.ValidatorIndex {
-	n := b.sliceLen()
+	n := b.setLen()
 	addrs := make([]common.Address, n)
 	for i := range addrs {
 		addrs[i] = b.address()
@@ -238,7 +248,7 @@ func (b *builder) validatorIndex() *state.ValidatorIndex {
 }
 
 func (b *builder) pending() *state.VerifC14Pending {
-	n := b.sliceLen()
+	n := b.setLen()
 	pairs := make([][2]common.Address, n)
 	for i := range pairs {
 		pairs[i] = [2]common.Address{b.address(), b.address()}
